@@ -32,10 +32,14 @@ try:
         if demo != "-":
             r = subprocess.run(["/venv/bin/python", demo], cwd=wt, env=env, capture_output=True, text=True, timeout=900)
             out["demo_after"] = r.returncode
+        # run from a snapshot of /verif so that edits made while a campaign is running cannot tear a check
+        snap = f"/tmp/st/{name}_verif"
+        shutil.rmtree(snap, ignore_errors=True)
+        subprocess.run(["rsync", "-a", "--exclude", "work", "--exclude", "seeded", "--exclude", "evidence", "--exclude", ".git", "/verif/", snap + "/"], check=True)
         for c in checks:
             e = dict(os.environ, SPECKIT_SRC=wt, VERIF_WORK_DIR=f"/tmp/st/{name}_work", VERIF_EVIDENCE_DIR=f"/tmp/st/{name}_ev")
             t0 = time.time()
-            r = subprocess.run(["/verif/check", c, "--tier", "quick"], env=e, capture_output=True, text=True, timeout=7200)
+            r = subprocess.run([f"{snap}/check", c, "--tier", "quick"], env=e, capture_output=True, text=True, timeout=7200)
             sigs = [l.strip() for l in r.stdout.splitlines() if l.strip().startswith("signature:")]
             out["checks"][c] = {"exit": r.returncode, "signatures": sigs[:12], "wall_s": round(time.time() - t0),
                                 "tail": r.stdout[-600:] if r.returncode == 2 else ""}
@@ -44,6 +48,7 @@ finally:
     shutil.rmtree(wt, ignore_errors=True)
     shutil.rmtree(f"/tmp/st/{name}_work", ignore_errors=True)
     shutil.rmtree(f"/tmp/st/{name}_ev", ignore_errors=True)
+    shutil.rmtree(f"/tmp/st/{name}_verif", ignore_errors=True)
 os.makedirs("/verif/seeded/_runs", exist_ok=True)
 json.dump(out, open(f"/verif/seeded/_runs/{name}.json", "w"), indent=1)
 det = {c: v["exit"] for c, v in out["checks"].items()}
